@@ -332,17 +332,121 @@ void randomCase(Ctx& c, long idx)
     c.count("random_sequences");
 }
 
+// deterministic: more than 256 devices / interfaces (index types, linear searches), checked with a direct model
+void manyCase(Ctx& c, long j)
+{
+    Status st;
+    std::map<uint16_t, std::map<uint32_t, uint64_t>> model;  // device -> interface -> latest ts; device ts in [0xFFFFFFFF+1]
+    std::map<uint16_t, uint64_t> devTs;
+    uint64_t ts = 1;
+    const size_t nd = j == 0 ? 300 : 3, ni = j == 0 ? 2 : 300;
+    auto check = [&](const std::string& when) {
+        ++c.evaluations;
+        if (st.getDeviceStatusCount() != devTs.size())
+            c.violation("C16:device-count", when + ": " + std::to_string(st.getDeviceStatusCount()) + " entries, " + std::to_string(devTs.size()) + " devices known", when);
+        for (auto& d : devTs)
+        {
+            size_t idx = st.getIndexByDeviceId(d.first);
+            if (idx >= st.getDeviceStatusCount())
+            {
+                c.violation("C16:lookup-of-present-device", when + ": device " + std::to_string(d.first) + " not found", when);
+                continue;
+            }
+            const auto& ds = st.getDeviceStatus(idx);
+            if (ds.getPacket().getTimestamp() != d.second || ds.getPacket().getDeviceId() != d.first)
+                c.violation("C16:device-entry-is-not-latest-cm-status", when + ": device " + std::to_string(d.first), when);
+            auto& ifs = model[d.first];
+            if (ds.getInterfaceStatusCount() != ifs.size())
+                c.violation("C16:interface-count", when + ": device " + std::to_string(d.first) + " has " + std::to_string(ds.getInterfaceStatusCount()) + " entries, " + std::to_string(ifs.size()) + " interfaces known", when);
+            for (auto& i : ifs)
+            {
+                size_t k = ds.getIndexByInterfaceId(i.first);
+                if (k >= ds.getInterfaceStatusCount())
+                    c.violation("C16:lookup-of-present-interface", when + ": interface " + std::to_string(i.first) + " not found", when);
+                else if (ds.getInterfaceStatus(k).getInterfaceId() != i.first || ds.getInterfaceStatus(k).getPacket().getTimestamp() != i.second)
+                    c.violation("C16:interface-entry-is-not-latest-if-status", when + ": interface " + std::to_string(i.first), when);
+            }
+        }
+        if (st.getIndexByDeviceId(0xFFF0) != st.getDeviceStatusCount())
+            c.violation("C16:lookup-of-absent-device", when, when);
+    };
+    for (size_t d = 0; d < nd; ++d)
+    {
+        uint16_t dev = static_cast<uint16_t>(1 + d * 7);
+        st.update(cmPacket(dev, ts));
+        devTs[dev] = ts++;
+        for (size_t i = 0; i < ni; ++i)
+        {
+            uint32_t ifid = static_cast<uint32_t>(i * 65537u + d);
+            st.update(ifPacket(dev, ifid, ts));
+            model[dev][ifid] = ts++;
+        }
+        if (d % 50 == 0)
+            check("while adding");
+    }
+    check("after adding");
+    // second round of updates in another order, removals of every third device / interface
+    for (size_t d = 0; d < nd; d += 2)
+    {
+        uint16_t dev = static_cast<uint16_t>(1 + ((d * 37) % nd) * 7);
+        st.update(cmPacket(dev, ts));
+        devTs[dev] = ts++;
+        for (size_t i = 0; i < ni; i += 3)
+        {
+            uint32_t ifid = static_cast<uint32_t>(((i * 11) % ni) * 65537u + (d * 37) % nd);
+            st.update(ifPacket(dev, ifid, ts));
+            model[dev][ifid] = ts++;
+        }
+    }
+    check("after second round");
+    size_t k = 0;
+    for (auto it = devTs.begin(); it != devTs.end(); ++k)
+    {
+        if (k % 3 == 0)
+        {
+            st.removeDeviceById(it->first);
+            model.erase(it->first);
+            it = devTs.erase(it);
+        }
+        else
+        {
+            auto& ifs = model[it->first];
+            size_t idx = st.getIndexByDeviceId(it->first);
+            size_t q = 0;
+            for (auto ii = ifs.begin(); ii != ifs.end(); ++q)
+            {
+                if (q % 3 == 1 && idx < st.getDeviceStatusCount())
+                {
+                    st.getDeviceStatus(idx).removeInterfaceById(ii->first);
+                    ii = ifs.erase(ii);
+                }
+                else
+                    ++ii;
+            }
+            ++it;
+        }
+        if (k % 40 == 0)
+            check("while removing");
+    }
+    check("after removing");
+    c.sig(mix64(0x16a, static_cast<uint64_t>(j)));
+    c.sig(mix64(0x16b, static_cast<uint64_t>(j)));
+    c.count("many_devices_or_interfaces_cases");
+}
+
 long countCases(Ctx& c)
 {
     if (c.prop != "C16")
         return -1;
-    return static_cast<long>(ops().size() * ops().size()) + (c.thorough() ? 50000 : 500);
+    return static_cast<long>(ops().size() * ops().size()) + 2 + (c.thorough() ? 50000 : 500);
 }
 void runCase(Ctx& c, long idx)
 {
     long n = static_cast<long>(ops().size() * ops().size());
     if (idx < n)
         return dfsCase(c, idx);
+    if (idx < n + 2)
+        return manyCase(c, idx - n);
     randomCase(c, idx);
 }
 
